@@ -1,2 +1,5 @@
-import Tumfl.Props.C11
-#print axioms Tumfl.Props.C11_roundtrip
+import Tumfl.Props.C06
+#print axioms Tumfl.Props.C06_quoted
+#print axioms Tumfl.Props.C06_long
+#print axioms Tumfl.Props.C06_forms
+#print axioms Tumfl.Inst.escTable_ok
